@@ -578,6 +578,11 @@ class Producer(object):
                 # No, no retries left, fail each failed_payload with its
                 # associated failure
                 for p, f in failed_payloads_with_errs:
+                    if not isinstance(f, Failure):
+                        # A broker error code arrives as a bare exception
+                        # instance: wrap it so the caller's deferred fails
+                        # rather than succeeding with an exception as its value.
+                        f = Failure(f)
                     t_and_p = TopicAndPartition(p.topic, p.partition)
                     _deliver_result(deferredsByTopicPart[t_and_p], f)
                 return
